@@ -180,7 +180,9 @@ def c09(tier, seed, work):
         mc = [("MCConsole", "MC_Console_sess.cfg"), ("MCConsole", "MC_Console_nosess.cfg")]
     res = console_check("C09", tier, seed, work, mc, fams, COMMON_ASSUME,
                         hs_fams=[dict(name="c09-hs-retry", family="retry", tier=tier, seed=seed)])
-    return add_walk(res, work, [dict(name="c09-api", module="MCGenApi", cfg_tpl="Gen_Cipher.cfg.tpl", family="api", tier=tier, seed=seed)],
+    return add_walk(res, work, [dict(name="c09-api", module="MCGenApi", cfg_tpl="Gen_Cipher.cfg.tpl", family="api", tier=tier, seed=seed),
+                                # a command retransmitted 255 .. 300 times, then another command
+                                dict(name="c09-longbusy", module="MCGenSensor", cfg_tpl="Gen_Cipher.cfg.tpl", family="lun", tier=tier, seed=seed)],
                     "Every library command and convenience method in a session, including requests the library refuses to encode "
                     "(nothing transmitted): the sequence numbers of the datagrams the BMC receives continue without a gap.")
 
@@ -497,6 +499,8 @@ def c18(tier, seed, work):
     # every library command (incl. the five DCMI capability commands that share one operation) and real-time retries
     fams.append(F.walk_family(work, "c18-api", "MCGenApi", "Gen_Cipher.cfg.tpl", "api", tier, seed, metrics=True))
     fams.append(F.walk_family(work, "c18-realtime", "MCGenTiming", "Gen_Cipher.cfg.tpl", "metrics", tier, seed, metrics=True))
+    # session opens that begin with the cipher suite enumeration (several preferences, or none given), successful or not
+    fams.append(F.walk_family(work, "c18-selection", "MCGenCipher", "Gen_Cipher.cfg.tpl", "selection", tier, seed, metrics=True))
     require_accepted(fams)
     viols = []
     for f in fams:
@@ -840,10 +844,12 @@ def c19(tier, seed, work):
              ("walk", dict(module="MCGenCipher", cfg_tpl="Gen_Cipher.cfg.tpl", family="selection", tier=t, seed=seed)),
              ("walk", dict(module="MCGenSensor", cfg_tpl="Gen_Cipher.cfg.tpl", family="misc", tier=t, seed=seed)),
              # connections opened, used and closed (twice: an explicit Close followed by a deferred one) while others are being created
-             ("hs", dict(family="lifecycle", tier=t, seed=seed, opts={"closeTwice": True}))]
+             ("hs", dict(family="lifecycle", tier=t, seed=seed, opts={"closeTwice": True})),
+             # every connection's password and key are sub-slices of one buffer the application read its credentials into
+             ("hs", dict(family="honest", tier=t, seed=seed + 1, opts={"credArena": True}))]
     ns = [8] if tier == "quick" else [2, 4, 8, 16]
     if tier == "quick":
-        specs = [sp for i, sp in enumerate(specs) if i in (0, 1, 3, 4, 6)]
+        specs = [sp for i, sp in enumerate(specs) if i in (0, 1, 3, 4, 6, 7)]
     viols, fams, races, diffs, compared = [], [], 0, 0, 0
 
     def run(kind, kw, name, workers):
